@@ -1,4 +1,4 @@
-"""C20 — generated configs evaluate their limit expressions correctly and statelessly (solver-reachable parts)."""
+"""C20 — generated configs evaluate their limit expressions correctly and statelessly."""
 from __future__ import annotations
 
 import itertools
@@ -354,6 +354,202 @@ class ValidateFx(Job):
         return [("accepted only when every token is a number, statistic, operator or parenthesis", acc)]
 
 
+# -- create_config on a time-constant climatology ------------------------------------------------------------------------------
+def parse_fx(text):
+    """expression text (space separated, as QcVariableConfig requires) -> tree, by a tiny precedence parser of the same grammar"""
+    toks = text.split(" ")
+    pos = [0]
+
+    def atom():
+        t = toks[pos[0]]
+        pos[0] += 1
+        if t == "(":
+            r = expr()
+            pos[0] += 1
+            return r
+        if t == "-":
+            return ("neg", atom())
+        return ("leaf", t)
+
+    def term():
+        r = atom()
+        while pos[0] < len(toks) and toks[pos[0]] in "*/":
+            op = toks[pos[0]]
+            pos[0] += 1
+            r = ("bin", op, r, atom())
+        return r
+
+    def expr():
+        r = term()
+        while pos[0] < len(toks) and toks[pos[0]] in "+-":
+            op = toks[pos[0]]
+            pos[0] += 1
+            r = ("bin", op, r, term())
+        return r
+    return expr()
+
+
+TIME_AXES = {
+    "mid-month": ["2021-02-15", "2021-06-15", "2021-10-15"],            # neither day 1 nor day 366 present
+    "jan-1": ["2021-01-01", "2021-05-01", "2021-09-01"],                # day 1 present
+    "dec-31-leap": ["2020-03-01", "2020-07-01", "2020-12-31"],          # day 366 present
+}
+DATE_RANGES = {"1 day": ("2021-03-01", "2021-03-02"), "2 days": ("2021-06-30", "2021-07-02"), "new year": ("2021-12-31", "2022-01-02")}
+SECTIONS = [("gross_range_test", "suspect_min", "min"), ("gross_range_test", "suspect_max", "max"),
+            ("gross_range_test", "fail_min", "mean - 2"), ("gross_range_test", "fail_max", "( min + max ) / 2 + mean"),
+            ("spike_test", "suspect_threshold", "std"), ("spike_test", "fail_threshold", "2 * mean"),
+            ("rate_of_change_test", "threshold", "max - min")]
+WHERE = {("gross_range_test", "suspect_min"): ("suspect_span", 0), ("gross_range_test", "suspect_max"): ("suspect_span", 1),
+         ("gross_range_test", "fail_min"): ("fail_span", 0), ("gross_range_test", "fail_max"): ("fail_span", 1)}
+
+
+class CreateConfig(Job):
+    """QcConfigCreator.create_config on a synthetic (time, [depth,] lat, lon) climatology that is constant in time"""
+    prop = "C20"
+    max_paths = 3000
+
+    def __init__(self, nlat, nlon, axis="mid-month", dates="1 day", three_d=False, canary=None):
+        self.nlat, self.nlon, self.axis, self.dates, self.three_d, self.canary = nlat, nlon, axis, dates, three_d, canary
+        self.n = len(SECTIONS)
+        self.name = (f"create_config grid={nlat}x{nlon}{'x2 depths' if three_d else ''} time_axis={axis} dates={dates}"
+                     + (f" CANARY={canary}" if canary else ""))
+        if canary:
+            self.expect_canary_sat = True
+            self.validate_witnesses = False
+
+    def params(self):
+        return {"grid": [self.nlat, self.nlon], "time_axis": TIME_AXES[self.axis], "date_range": list(DATE_RANGES[self.dates]),
+                "three_d": self.three_d, "expressions": [s[2] for s in SECTIONS]}
+
+    def declare(self, V):
+        S = Struct()
+        S.lat = [V.float(f"lat{i}", lo=-80, hi=80) for i in range(self.nlat)]
+        S.lon = [V.float(f"lon{j}", lo=-170, hi=170) for j in range(self.nlon)]
+        for a, b in zip(S.lat, S.lat[1:]):
+            V.assume(a.v < b.v)
+        for a, b in zip(S.lon, S.lon[1:]):
+            V.assume(a.v < b.v)
+        S.v = [[V.float(f"v{i}_{j}", nan=True, lo=-64, hi=64) for j in range(self.nlon)] for i in range(self.nlat)]
+        S.deep = [[V.float(f"w{i}_{j}", nan=True, lo=-64, hi=64) for j in range(self.nlon)] for i in range(self.nlat)] if self.three_d else None
+        S.box = [V.float("xmin", lo=-180, hi=180), V.float("ymin", lo=-90, hi=90), V.float("xmax", lo=-180, hi=180), V.float("ymax", lo=-90, hi=90)]
+        V.assume(S.box[0].v <= S.box[2].v, S.box[1].v <= S.box[3].v)
+        # the property speaks of the grid cells inside the requested box: there is at least one with data
+        V.assume(mk_or(*[c for row in self.inside(S) for c in row]))
+        return S
+
+    def inside(self, S):
+        b = S.box
+        return [[mk_and(b[1].v <= S.lat[i].v, S.lat[i].v <= b[3].v, b[0].v <= S.lon[j].v, S.lon[j].v <= b[2].v, mk_not(S.v[i][j].nan))
+                 for j in range(self.nlon)] for i in range(self.nlat)]
+
+    # -- the dataset, symbolic or as a real netCDF file ------------------------------------------------------------------
+    def _dataset(self, S, K, tmp):
+        import numpy as np
+        times = np.array(TIME_AXES[self.axis], dtype="datetime64[ns]")
+        T = len(times)
+        layers = [S.v] + ([S.deep] if self.three_d else [])
+        if K.sym:
+            from symex import symnp as snp, symxr
+            shape = (T, len(layers), self.nlat, self.nlon) if self.three_d else (T, self.nlat, self.nlon)
+            a = snp._obj(shape)
+            for t in range(T):
+                for d, layer in enumerate(layers):
+                    for i in range(self.nlat):
+                        for j in range(self.nlon):
+                            a[(t, d, i, j) if self.three_d else (t, i, j)] = layer[i][j]
+            dims = ("time", "depth", "lat", "lon") if self.three_d else ("time", "lat", "lon")
+            coords = {"time": snp.asarray(times), "lat": snp.ndarray.from_list(S.lat, "float64"), "lon": snp.ndarray.from_list(S.lon, "float64")}
+            if self.three_d:
+                coords["depth"] = snp.asarray(np.array([0.0, 10.0]))
+            path = "/symbolic/clim.nc"
+            symxr.LOADABLE[path] = symxr.GridDataset({"temp": (dims, snp.ndarray(a, "float64"))}, coords)
+            return path
+        import os
+        import xarray as xr
+        data = np.array([[[layer[i][j] for j in range(self.nlon)] for i in range(self.nlat)] for layer in layers], dtype="float64")
+        if self.three_d:
+            arr = np.broadcast_to(data[None], (T,) + data.shape).copy()
+            ds = xr.Dataset({"temp": (("time", "depth", "lat", "lon"), arr)},
+                            coords={"time": times, "depth": [0.0, 10.0], "lat": list(S.lat), "lon": list(S.lon)})
+        else:
+            arr = np.broadcast_to(data[0][None], (T,) + data[0].shape).copy()
+            ds = xr.Dataset({"temp": (("time", "lat", "lon"), arr)}, coords={"time": times, "lat": list(S.lat), "lon": list(S.lon)})
+        path = os.path.join(tmp, "clim.nc")
+        ds.to_netcdf(path, engine="scipy")
+        return path
+
+    def invoke(self, mods, S, K):
+        import shutil
+        import tempfile
+        cc = mods.config_creator.config_creator
+        tmp = None if K.sym else tempfile.mkdtemp(prefix="c20_")
+        try:
+            dsdef = {"name": "clim", "file_path": self._dataset(S, K, tmp), "variables": {"temperature": "temp"}}
+            if self.three_d:
+                dsdef["3d"] = "depth"
+            creator = cc.CreatorConfig({"datasets": [dsdef]})
+            tests = {}
+            for test, key, text in SECTIONS:
+                tests.setdefault(test, {})[key] = text
+            start, end = DATE_RANGES[self.dates]
+            vc = cc.QcVariableConfig({"variable": "temperature", "bbox": list(S.box), "start_time": start, "end_time": end, "tests": tests})
+            return cc.QcConfigCreator(creator).create_config(vc)
+        finally:
+            if tmp:
+                shutil.rmtree(tmp, ignore_errors=True)
+
+    def observe(self, out):
+        flags = []
+        sec = out["temperature"]["qartod"]
+        for test, key, text in SECTIONS:
+            k, i = WHERE.get((test, key), (key, None))
+            v = sec[test][k]
+            if i is not None:
+                v = v[i]
+            if isinstance(v, SFloat):
+                if v.root2 is not None:
+                    flags += [mk_if(v.nan, rv(1), rv(0)), v.root2]
+                else:
+                    flags += [mk_if(v.nan, rv(1), rv(0)), v.v * v.v if text == "std" else v.v]
+            else:
+                v = float(v)
+                flags += [rv(1), rv(0)] if v != v else [rv(0), rv(Fraction(v) * Fraction(v) if text == "std" else Fraction(v))]
+        return Outcome(flags=flags, mask=[FALSE] * len(flags), shape=(len(flags),), extra={"approx": True})
+
+    def holds(self, S, out):
+        if out.raised:
+            return [(f"create_config completes ({type(out.exc).__name__}: {str(out.exc)[:90]})", FALSE)]
+        cells = [(i, j) for i in range(self.nlat) for j in range(self.nlon)]
+        ins = self.inside(S)
+        obl = []
+        eps = rv(Fraction(1, 10 ** 9))
+        per_pattern = [[] for _ in SECTIONS]
+        for bits in itertools.product((False, True), repeat=len(cells)):
+            P = [c for c, b in zip(cells, bits) if b]
+            if not P:
+                continue
+            cond = mk_and(*[ins[i][j] if b else mk_not(ins[i][j]) for (i, j), b in zip(cells, bits)])
+            vals = [S.v[i][j].v for i, j in P]
+            mn, mx = vals[0], vals[0]
+            for x in vals[1:]:
+                mn = mk_if(x < mn, x, mn)
+                mx = mk_if(x > mx, x, mx)
+            mean = sum(vals[1:], vals[0]) / len(vals)
+            var = sum([(x - mean) * (x - mean) for x in vals[1:]], (vals[0] - mean) * (vals[0] - mean)) / len(vals)
+            if self.canary == "sample_std" and len(vals) > 1:
+                var = var * len(vals) / (len(vals) - 1)
+            env = {"min": mn, "max": mx, "mean": mean}
+            for k, (test, key, text) in enumerate(SECTIONS):
+                exp = var if text == "std" else evaluate(parse_fx(text), env)[0]
+                isnan, v = out.flags[2 * k], out.flags[2 * k + 1]
+                d = v - exp
+                mag = mk_if(exp >= 0, exp, -exp)
+                per_pattern[k].append(mk_or(mk_not(cond), mk_and(mk_eq(isnan, rv(0)), d <= eps * (1 + mag), -d <= eps * (1 + mag))))
+        for k, (test, key, text) in enumerate(SECTIONS):
+            obl.append((f"{test}.{key} = '{text}' on the statistics of the cells inside the requested box", mk_and(*per_pattern[k])))
+        return obl
+
+
 def jobs(tier):
     out = []
     ts = trees(2 if tier == "quick" else 3)
@@ -364,30 +560,59 @@ def jobs(tier):
     out.append(ValidateFx(4 if tier == "quick" else 5))
     out.append(EvalFx(0, [("bin", "-", ("bin", "-", ("leaf", "mean"), ("leaf", "std")), ("leaf", "max"))], "clean", canary="right_assoc"))
     out.append(ValidateFx(3, canary="drop_std"))
+    out.append(CreateConfig(2, 2))
+    out.append(CreateConfig(2, 2, axis="jan-1", dates="2 days"))
+    out.append(CreateConfig(2, 2, axis="dec-31-leap", dates="new year"))
+    out.append(CreateConfig(1, 2, three_d=True))
+    if tier == "thorough":
+        out.append(CreateConfig(2, 3))
+        out.append(CreateConfig(2, 2, axis="jan-1", dates="new year", three_d=True))
+        out.append(CreateConfig(3, 2, axis="mid-month", dates="2 days"))
+    out.append(CreateConfig(1, 2, canary="sample_std"))
     return out
 
 
 FUNCTIONS = ["ioos_qc/config_creator/fx_parser.py:evaluate_stack", "ioos_qc/config_creator/fx_parser.py:eval_fx",
-             "ioos_qc/config_creator/config_creator.py:QcVariableConfig._validate_fx"]
-OUTSIDE = ["QcConfigCreator.create_config on a synthetic climatology: depends on xr.load_dataset (file I/O), xarray 3-D boolean indexing and "
-           "SciPy's compiled CubicSpline: not encodable, NOT decided by this check",
+             "ioos_qc/config_creator/config_creator.py:QcVariableConfig._validate_fx",
+             "ioos_qc/config_creator/config_creator.py:QcConfigCreator.create_config", "ioos_qc/config_creator/config_creator.py:QcConfigCreator._get_stats",
+             "ioos_qc/config_creator/config_creator.py:QcConfigCreator._get_subset",
+             "ioos_qc/config_creator/config_creator.py:QcConfigCreator.__get_daily_interp_subset",
+             "ioos_qc/config_creator/config_creator.py:QcConfigCreator.__daily_cubic_interp",
+             "ioos_qc/config_creator/config_creator.py:QcConfigCreator._create_test_section (span, spike, rate-of-change sections)",
+             "ioos_qc/config_creator/config_creator.py:CreatorConfig.__init__", "ioos_qc/config_creator/config_creator.py:QcVariableConfig.__init__"]
+OUTSIDE = ["create_config: climatologies that vary in time (the property speaks of time-constant ones; the CubicSpline stub covers only "
+           "those), grids larger than the bound, boxes holding no data cell (the box-padding loop is then reached; not part of the statement), "
+           "date ranges other than the three enumerated, more than one dataset / variable, flat_line and location sections",
+           "create_config: reading the netCDF file and SciPy's compiled CubicSpline are environment stubs in the symbolic run "
+           "(xarray.load_dataset -> the symbolic grid; CubicSpline -> 'constant data interpolates to that constant'); every path witness "
+           "is replayed through the real xarray + SciPy on a real netCDF file written for it",
            "the pyparsing grammar is executed concretely per expression shape (the token stream is real pyparsing output); only "
            "evaluate_stack runs on symbolic statistics", "expression depth above the bound; '^' and function calls (outside the property's grammar)",
            "validator strings longer than the bound or outside the alphabet '" + ALPHA + "' (unicode digits/whitespace accepted by float())",
            "division by a statistic that is exactly 0 (ZeroDivisionError)"]
 ASSUMPTIONS = ["python's float() acceptance is tabulated per token length on class representatives with the real float() at run time",
-               "statistics are finite reals in [-64,64]; replay compares in binary64 with relative tolerance 1e-9"]
+               "statistics are finite reals in [-64,64]; replay compares in binary64 with relative tolerance 1e-9",
+               "create_config: strictly increasing lat/lon coordinates, xmin<=xmax, ymin<=ymax, at least one cell with data inside the box, "
+               "land cells (NaN) constant through time, stub contracts for xarray.load_dataset / DataArray orthogonal indexing / "
+               "scipy.interpolate.CubicSpline(bc_type='periodic') as documented in symex/symxr.py and symex/symscipy.py"]
 
 
 def bounds(tier):
     return {"expression_depth": 2 if tier == "quick" else 3, "expressions": len(trees(2 if tier == "quick" else 3)),
             "histories": ["clean stack", "5 poison entries below", "9 rejected/failed expressions before and between"],
-            "validator_string_length": 4 if tier == "quick" else 5}
+            "validator_string_length": 4 if tier == "quick" else 5,
+            "create_config": {"grids": ["2x2", "1x2 with 2 depth levels"] + (["2x3", "3x2", "2x2 with 2 depth levels"] if tier == "thorough" else []),
+                              "time_axes": TIME_AXES, "date_ranges": DATE_RANGES, "cell values, coordinates and box": "symbolic",
+                              "expressions": [s_[2] for s_ in SECTIONS]}}
 
 
-LEVEL_TEXT = ("bounded symbolic model checking of the evaluator and the validator: the real evaluate_stack/eval_fx run on symbolic "
-              "statistics over the token stream real pyparsing produces, from a stack with an arbitrary poisoned history, and z3 proves "
-              "value = ordinary arithmetic value and that no stale entry is read; _validate_fx runs on every bounded string over a "
-              "32-character alphabet and z3 proves accept <=> token whitelist.  create_config is outside this technique's reach.")
-LEVEL_NOTE = "expression depth<=2/3; validator strings<=4/5; grammar executed concretely; create_config (xarray I/O + SciPy spline) not decided"
-TECHNIQUE = "symbolic execution of the real Python source (evaluator on symbolic reals, validator on bounded symbolic strings) + z3"
+LEVEL_TEXT = ("bounded symbolic model checking of the evaluator, the validator and create_config: the real evaluate_stack/eval_fx run on "
+              "symbolic statistics over the token stream real pyparsing produces, from a stack with an arbitrary poisoned history, and z3 "
+              "proves value = ordinary arithmetic value and that no stale entry is read; _validate_fx runs on every bounded string over a "
+              "32-character alphabet and z3 proves accept <=> token whitelist; create_config runs on a symbolic time-constant grid "
+              "(symbolic cell values incl. land, coordinates and bounding box) and z3 proves every generated limit equals its "
+              "expression on min/max/mean/std of exactly the cells inside the box.")
+LEVEL_NOTE = ("expression depth<=2/3; validator strings<=4/5; grammar executed concretely; create_config on grids up to 2x2 (quick) / 3x2 "
+              "(thorough) with file I/O and CubicSpline as stated stubs, witnesses replayed through real xarray/SciPy/netCDF")
+TECHNIQUE = ("symbolic execution of the real Python source (evaluator and config creator on symbolic reals over a modelled "
+             "numpy/xarray/SciPy environment, validator on bounded symbolic strings) + z3; witness replay on the real stack")
